@@ -85,9 +85,17 @@ def tabulate (n : Nat) (d : Dep) : List (List Bool) :=
 
 def ofTable (t : List (List Bool)) : Dep := fun a b => (t.getD a []).getD b false
 
-def closeN (n : Nat) : Nat → Dep → Dep
-  | 0, d => d
-  | k + 1, d => closeN n k (ofTable (tabulate n (closeOnce n d)))
+/-- `k` rounds of `addNextDeps` on the materialised relation -/
+def closeTab (n : Nat) : Nat → List (List Bool) → List (List Bool)
+  | 0, t => t
+  | k + 1, t => closeTab n k (tabulate n (closeOnce n (ofTable t)))
+
+/-- the closed dependency table `topoSort` hands to the shift loop: the direct
+dependencies among calls `0 … n-1`, closed by `n` rounds (path doubling needs
+about `log₂ n`; the real loop runs until nothing changes — tied by
+correspondence on the resulting map) -/
+def closedTable (n : Nat) (edges : List (Nat × Nat)) : List (List Bool) :=
+  closeTab n n (tabulate n (depOfEdges edges))
 
 def hasCycle (n : Nat) (d : Dep) : Bool := (List.range n).any fun a => d a a
 
@@ -114,8 +122,18 @@ def loop (d : Dep) : Nat → List Nat → Nat → List Nat
 edges `(a, b)` = "a uses an output of b".  A dependency cycle is an error and
 leaves the order unchanged. -/
 def topoSort (n : Nat) (edges : List (Nat × Nat)) : List Nat :=
-  let d := closeN n n (depOfEdges edges)
-  if hasCycle n d then List.range n else loop d (n * n + n + 1) (List.range n) 0
+  let t := closedTable n edges
+  if hasCycle n (ofTable t) then List.range n else loop (ofTable t) (n * n + n + 1) (List.range n) 0
+
+/-- the relation is transitive / irreflexive on the given calls: what
+`addNextDeps` establishes (closure, cycle = error) before the shift loop runs -/
+def transOn (l : List Nat) (d : Dep) : Bool :=
+  l.all fun a => l.all fun b => l.all fun c => !(d a b && d b c) || d a c
+
+def irreflOn (l : List Nat) (d : Dep) : Bool := l.all fun a => !d a a
+
+/-- the dependency relation `topoSort` hands to the shift loop -/
+def closedDeps (n : Nat) (edges : List (Nat × Nat)) : Dep := ofTable (closedTable n edges)
 
 /-- no element has a dependency later in the list -/
 def sortedFrom (d : Dep) : List Nat → Bool
